@@ -63,7 +63,7 @@ def generate(rng, tier, shard, nshards):
                 k += 1
         for a, b in itertools.product(C, C):
             for fn in ("add", "mul", "iadd", "imul"):
-                for fresh, fresh2 in ((True, True), (False, False)) if tp in ("Entropy", "Boolean", "Expectation") else ((True, True),):
+                for fresh, fresh2 in ((True, True), (False, False)) if tp not in ("Float", "FloatF") else ((True, True),):
                     if k % nshards == shard:
                         yield lops.event("semiring", {"type": tp, "fn": fn, "a": a, "b": b, "fresh": fresh, "fresh2": fresh2},
                                          site=f"{tp}.{fn}", feat=f"{fn}" + ("" if fresh else "/singletons"))
